@@ -8,6 +8,7 @@ import (
 	"errors"
 	"fmt"
 	"log/slog"
+	"math"
 	"strings"
 	"testing"
 	"time"
@@ -420,7 +421,8 @@ func propC18(t *rapid.T) {
 			th = zapcore.Level(rapid.IntRange(-1, 3).Draw(t, "newCoreThreshold"))
 			al.SetLevel(th)
 		}
-		lvl := slog.Level(rapid.IntRange(-8, 12).Draw(t, "slogLevel"))
+		lvl := slog.Level(rapid.OneOf(rapid.IntRange(-8, 12), rapid.IntRange(-8, 12), rapid.IntRange(-8, 12),
+			rapid.SampledFrom([]int{-1024, -516, -512, -260, -257, -256, -129, -128, 124, 127, 128, 255, 256, 260, 511, 512, 516, 1024, math.MaxInt, math.MinInt})).Draw(t, "slogLevel"))
 		zl := c18ZapLevel(lvl)
 		msg := genStr().Draw(t, "msg")
 		var rtime time.Time
@@ -601,7 +603,17 @@ func TestC18Slog(t *testing.T) { rapid.Check(t, propC18) }
 // Level mapping: monotone in the slog level and fixed at the four thresholds.
 func TestC18Levels(t *testing.T) {
 	prev := zapcore.Level(-128)
-	for l := -200; l <= 200; l++ {
+	// every level in -1100..1100 plus the extremes of the int range (slog.Level is an int: the mapping must stay
+	// monotone and clamp far outside the range of zap's 8-bit level type)
+	var levels []int
+	for _, x := range []int{math.MinInt, math.MinInt + 1, math.MinInt32, -70000, -65536, -32769} {
+		levels = append(levels, x)
+	}
+	for l := -1100; l <= 1100; l++ {
+		levels = append(levels, l)
+	}
+	levels = append(levels, 32767, 32768, 65535, 65536, 70000, math.MaxInt32, math.MaxInt-1, math.MaxInt)
+	for _, l := range levels {
 		al := zap.NewAtomicLevelAt(zapcore.DebugLevel)
 		sink := &memSink{}
 		h := zapslog.NewHandler(zapcore.NewCore(zapcore.NewJSONEncoder(c18Cfg), sink, al))
